@@ -255,7 +255,15 @@ impl<'a> tracing_subscriber::fmt::writer::MakeWriter<'a> for RollingFileAppender
             if self.state.advance_date(now, current_time) {
                 #[cfg(tracing_verif)]
                 __verif::yield_point(1);
-                self.state.refresh_writer(now, &mut self.writer.write());
+                let mut file = self.writer.write();
+                // While this thread waited for the write lock, another thread may
+                // have won the rotation of a *later* period and already swapped
+                // its file in. Replacing that file with ours would send all
+                // subsequent writes to the older period's file, so only refresh
+                // if `next_date` is still the value this thread stored.
+                if self.state.is_latest_rotation(now) {
+                    self.state.refresh_writer(now, &mut file);
+                }
             }
         }
         RollingWriter(self.writer.read())
@@ -736,6 +744,18 @@ impl Inner {
         }
 
         None
+    }
+
+    /// Returns `true` if `next_date` still holds the value that a successful
+    /// [`advance_date`](Self::advance_date) at `now` stored, i.e. no other
+    /// thread has advanced to a later period since.
+    fn is_latest_rotation(&self, now: OffsetDateTime) -> bool {
+        let expected = self
+            .rotation
+            .next_date(&now)
+            .map(|date| date.unix_timestamp() as usize)
+            .unwrap_or(0);
+        self.next_date.load(Ordering::Acquire) == expected
     }
 
     fn advance_date(&self, now: OffsetDateTime, current: usize) -> bool {
